@@ -77,7 +77,7 @@ EXTENT_FAULTS = {"definition:extent-too-small": "@extent 8", "definition:extent-
 
 def _neutral() -> st.SearchStrategy:
     return st.sampled_from(
-        ["", "", " ", "\t ", "# comment", "#", "  # indented comment", "FIELD", "FIELD", "CONST", "@assert true", "@print", "STRCONST", "@assert '#' != \"a'b\"  # not a comment start inside quotes",
+        ["", "", " ", "\t ", "# comment", "#", "  # indented comment", "FIELD", "FIELD", "CONST", "@assert true", "@print", "STRCONST", "MULTILINE", "MULTILINE3", "@assert '#' != \"a'b\"  # not a comment start inside quotes",
          "# comment with a quote ' and a hash #", "@assert {1, 2}.count == 2",
          "# form\x0cfeed, vertical\x0btab, \x1c\x1d\x1e, NEL \x85, LS \u2028 and PS \u2029 are ordinary comment characters",
          "@assert 'a\x0cb\u2028c' != \"\x85\"  # neither do they end a line inside a string literal"]
@@ -181,6 +181,16 @@ def build_files(case: typing.Any) -> typing.Tuple[typing.Dict[str, str], typing.
                 elif b == "CONST":
                     counter += 1
                     b = "uint16 C%d = %d" % (counter, counter)
+                    kinds.append("stmt")
+                elif b in ("MULTILINE", "MULTILINE3"):
+                    # a string literal may contain raw line breaks: the statement continues on the following line(s), which are
+                    # lines of the file like any other
+                    counter += 1
+                    parts_ = ["@assert 'first line", "second line' != \"x%d\"" % counter] if b == "MULTILINE" else ["uint8 M%d = 7 + {'a" % counter, "b", "c'}.count  # three lines"]
+                    for extra_line in parts_[:-1]:
+                        lines.append(extra_line)
+                        kinds.append("stmt")
+                    b = parts_[-1]
                     kinds.append("stmt")
                 elif b == "STRCONST":
                     counter += 1
